@@ -68,6 +68,12 @@ example : ((Ht.new 8 1 : Ht Nat).runOps (fun _ a b => a == b) none none
     [.ok (some 1), .ok (some 2), .exist 1, .ok (some 3), .ok none, .ok (some 5), .ok (some 6), .ok none, .notfound,
      .notfound, .notfound, .ok none, .ok none, .ok none] := by decide
 
+/-- …and the hypotheses of `l1_refines_l2` hold for it: the table never grows beyond 16 records -/
+example : Ht.sizesBelow (fun _ a b => a == b) none none (2 ^ 31 - 1) (Ht.new 8 1 : Ht Nat)
+    [.ins true true 1 3, .ins true true 2 3, .ins true true 1 3, .ins false true 3 11, .ins true false 4 19, .ins true true 5 3,
+     .ins true true 6 3, .rem 2 3, .find 2 3, .next 1 3, .rem 9 9, .rem 1 3, .rem 3 11, .rem 4 19] := by
+  simp only [Ht.sizesBelow]; decide
+
 /-- Memory-safety obligation of `_lyht_insert_with_resize_cb` at the index level: whenever the table is not full the head of
 the free list is a valid record index (and it is not, exactly when `used = size` — the case the compiled-out
 `assert(rec_idx < ht->size)` guards). -/
